@@ -1552,6 +1552,10 @@ class UTPM(Ring, RawAlgorithmsMixIn):
         du = cls.diag(U)
         su = cls.sign(du)
         au = cls.abs(du)
+        if not numpy.iscomplexobj(x.data):
+            # log|det x|, what algopy.logdet returns for a plain array (numpy.linalg.slogdet(x)[1]);
+            # log(c) with the sign c = -1 of a negative determinant would make the value nan
+            return cls.sum(cls.log(au))
         c = cls.piv2det(PIV) * cls.prod(su)
         return cls.log(c) + cls.sum(cls.log(au))
 
@@ -1567,9 +1571,8 @@ class UTPM(Ring, RawAlgorithmsMixIn):
         du = cls.diag(U)
         su = cls.sign(du)
         au = cls.abs(du)
-        c  = cls.piv2det(PIV) * cls.prod(su)
         l  = cls.log(au)
-        y  = cls.log(c) + cls.sum(l)
+        y  = cls.sum(l)     # (the constant log of the sign has no adjoint)
 
         lbar    = cls.pb_sum(ybar, l, y, None, None, None)
         aubar   = cls.pb_log(lbar, au, l)
